@@ -116,7 +116,19 @@ def rule_D8(tree: Tree) -> RuleResult:
     ok = pre.get("ts") == "self.decrypted_traffic[0].src_packet.ts" and pre.get("isserver") == "self.decrypted_traffic[0].src_packet.isserver" and pre.get("packets") == "bytearray()"
     tail = [s for s in f.node.body if isinstance(s, ast.Expr) and isinstance(s.value, ast.Call) and dotted(s.value.func) == "self.out.append"]
     ok = ok and len(tail) == 1 and src(tail[0].value.args[0]) == "(packet, ts)"
-    r.ob(ok, Finding("D8", f"{QOB}:QUICOutputbuilder.build:first-and-last-group", "the first group starts with the first frame's time/direction and an empty buffer; the last open group is emitted after the loop", m.line(f.node)))
+    # between the loop and the final emission the group variables are not rebound
+    after = False
+    rebinds = []
+    for st in f.node.body:
+        if isinstance(st, ast.For):
+            after = True
+            continue
+        if after:
+            for x in ast.walk(st):
+                if isinstance(x, ast.Name) and isinstance(x.ctx, ast.Store) and x.id in ("ts", "isserver", "packets"):
+                    rebinds.append(f"{x.id} (line {x.lineno})")
+    ok = ok and not rebinds
+    r.ob(ok, Finding("D8", f"{QOB}:QUICOutputbuilder.build:first-and-last-group", f"the first group starts with the first frame's time/direction and an empty buffer; the last open group is emitted after the loop with the *running* group state (rebound after the loop: {rebinds})", m.line(f.node)))
     return r
 
 
